@@ -242,12 +242,31 @@ Theorem C18_plugin_listed_id :
 Proof. exact C18.PProofs.plugin_listed_id. Qed.
 Print Assumptions C18_plugin_listed_id.
 
-(* Full statement of "a one-shot request runs at most once":  forall ops c, count_occ (map snd (p_log s)) c <= 1 for one-shot c.
-   The pinned plugin violates it (finding C18.F24): after a reload the event fires through the closure of the dead
-   instance, which deletes it from the dead instance's dict only; the next reload (or restart) schedules it again.
-   Proved here: the refuting witness.  (The domain theorem -- histories without reload -- is not proved; the direct
-   oracle of the harness judges every generated history on the implementation.) *)
-Theorem C18_plugin_once_refuted :
-  exists ops c, count_occ N.eq_dec (map snd (p_log (prun_ops ops pinit))) c = 2%nat.
-Proof. exists [QAdd 2; QReload; QAdvance 3; QRun; QReload; QAdvance 1; QRun], 0%N. vm_compute. reflexivity. Qed.
-Print Assumptions C18_plugin_once_refuted.
+(* every function the plugin has in the schedule is a closure of the LIVE instance and is listed under its name
+   (die() unschedules, the next instance re-schedules from the pickle: regenerated table DIE_UNSCHEDULES) *)
+Theorem C18_plugin_live :
+  forall ops e, let s := prun_ops ops pinit in
+  In e (p_sched s) -> s_gen e = p_gen s /\ In (s_name e) (map fst (p_dict s)).
+Proof. exact C18.PProofs.plugin_live. Qed.
+Print Assumptions C18_plugin_live.
+
+(* no one-shot request is ever executed twice, in any history of add / remind / repeat / remove, clock advances, run(),
+   reload, unload ... load and restart (p_done = the one-shot requests executed so far).  This was refuted for the plugin
+   before the repair of C18.F24 (C18_plugin_once_refuted_old_die). *)
+Theorem C18_plugin_once :
+  forall ops, NoDup (p_done (prun_ops ops pinit)).
+Proof. exact C18.PProofs.plugin_once. Qed.
+Print Assumptions C18_plugin_once.
+
+(* ... because an executed one-shot request is neither scheduled nor listed any more *)
+Theorem C18_plugin_done_gone :
+  forall ops c, let s := prun_ops ops pinit in
+  In c (p_done s) -> ~ In c (map s_cmd (p_sched s)) /\ ~ In c (map (fun kv => pcmd (snd kv)) (p_dict s)).
+Proof. exact C18.PProofs.plugin_done_gone. Qed.
+Print Assumptions C18_plugin_done_gone.
+
+(* the same model with the die() of before the repair (it left the events scheduled): a request runs twice *)
+Theorem C18_plugin_once_refuted_old_die :
+  exists ops, ~ NoDup (p_done (prun_ops_with false ops pinit)).
+Proof. exact C18.PProofs.plugin_once_refuted_old_die. Qed.
+Print Assumptions C18_plugin_once_refuted_old_die.
